@@ -229,14 +229,13 @@ try {
     }
     char* script_str = nullptr;
     if (pipe_in) {
+        // the script is everything on stdin: it may be longer than one buffer and span several lines
+        std::string input;
         char buf[1024];
-        if (!fgets(buf, 1024, stdin)) {
-            fprintf(stderr, "warning: no input\n");
-            buf[0] = 0;
-        }
-        int len = strlen(buf);
-        while (len > 0 && (buf[len-1] == '\n' || buf[len-1] == '\r')) buf[--len] = 0;
-        script_str = strdup(buf);
+        while (fgets(buf, 1024, stdin)) input += buf;
+        if (input.empty()) fprintf(stderr, "warning: no input\n");
+        while (!input.empty() && (input.back() == '\n' || input.back() == '\r')) input.pop_back();
+        script_str = strdup(input.c_str());
     } else if (ca.l.size() > 0) {
         script_str = strdup(ca.l[0]);
         ca.l.erase(ca.l.begin(), ca.l.begin() + 1);
